@@ -431,3 +431,14 @@ func sharedCtx(withHandlers bool) context.Context {
 	hs[3] = partialHandler("c2e", false) // needed at end / error timings only
 	return callbacks.InitCallbacks(ctx, &callbacks.RunInfo{Name: "caller"}, hs...)
 }
+
+// sharedCb / sharedLopt: option VALUES shared by every call whose inner slices (handler list,
+// option list) have spare capacity, as they have when the caller built them by slicing or
+// appending: whatever a run appends to what it was handed must not land there.
+func sharedCb(name string) compose.Option {
+	return compose.WithCallbacks(spare([]callbacks.Handler{sharedHandler(name)})...)
+}
+
+func sharedLopt(val string) compose.Option {
+	return compose.WithLambdaOption(spare([]any{lopt{Val: val}})...)
+}
